@@ -149,6 +149,7 @@ type World struct {
 	Genesis  int64
 	dirSeq   int
 	Stats    map[string]int
+	beforePropose func(p *Replica)
 	// OnBlock observers run after a block was inserted into every replica
 	OnBlock []func(w *World, b *types.Block)
 }
@@ -255,6 +256,16 @@ type Replica struct {
 	Epoch    *EpochDriver // epoch mode glue (synthetic or real ceremony)
 	Restarts int
 	Alive    bool
+	Observer bool           // follows the chain but never proposes and gets no gossip (harness-controlled pool)
+	Zone     *time.Location // host time zone of this node (nil = leave time.Local alone)
+}
+
+// enter makes r the "current host": its time zone becomes the process-local zone. Replicas
+// run sequentially in the harness goroutine, so this emulates nodes in different zones.
+func (r *Replica) enter() {
+	if r.Zone != nil {
+		time.Local = r.Zone
+	}
 }
 
 func (w *World) scratchDir(tag string) string {
@@ -301,6 +312,7 @@ func (w *World) NewReplica(owner *Actor, db dbm.DB) *Replica {
 
 // Boot (re)creates every in-memory object on the replica's surviving DB.
 func (r *Replica) boot() error {
+	r.enter()
 	w := r.W
 	dir := w.scratchDir(r.Name)
 	r.Cfg = w.nodeConfig(dir)
@@ -378,6 +390,7 @@ type BlockResult struct {
 
 // Propose lets replica p build a block from its own mempool (virtual clock frozen).
 func (w *World) Propose(p *Replica) *types.BlockProposal {
+	p.enter()
 	return p.Chain.ProposeBlock(nil)
 }
 
@@ -385,6 +398,7 @@ func (w *World) Propose(p *Replica) *types.BlockProposal {
 // including insertion: signature / structural validity, header, offline-vote flags, upgrade
 // bits, full validation, AddBlock.
 func (r *Replica) Receive(prop *types.BlockProposal) error {
+	r.enter()
 	if !prop.IsValid() {
 		return fmt.Errorf("proposal IsValid() == false")
 	}
@@ -405,6 +419,7 @@ func (r *Replica) Receive(prop *types.BlockProposal) error {
 }
 
 func (r *Replica) AddBlock(b *types.Block) error {
+	r.enter()
 	if err := r.Chain.AddBlock(b, nil, r.Stats); err != nil {
 		return fmt.Errorf("AddBlock: %w", err)
 	}
@@ -427,7 +442,7 @@ func (r *Replica) addCert(b *types.Block) {
 func (w *World) Eligible() []*Replica {
 	var out []*Replica
 	for _, r := range w.Replicas {
-		if r.Alive && r.CanPropose() {
+		if r.Alive && !r.Observer && r.CanPropose() {
 			out = append(out, r)
 		}
 	}
@@ -450,6 +465,7 @@ func (w *World) NextBlock(emptyPct int) *BlockResult {
 	if len(el) == 0 || w.Rng.Intn(100) < emptyPct {
 		// an empty block: each replica generates and compares by hash; produce it on a random one
 		src := w.liveReplica()
+		src.enter()
 		b := src.Chain.GenerateEmptyBlock()
 		res.Block = b
 		// empty block time = parent + 20s; keep the clock at or after it
@@ -468,6 +484,9 @@ func (w *World) NextBlock(emptyPct int) *BlockResult {
 	} else {
 		p := el[w.Rng.Intn(len(el))]
 		res.Proposer = p
+		if w.beforePropose != nil {
+			w.beforePropose(p)
+		}
 		prop := w.Propose(p)
 		res.Block = prop.Block
 		// the proposer inserts its own block last, like the engine does after consensus
@@ -509,7 +528,7 @@ func (w *World) liveReplica() *Replica {
 func (w *World) Submit(tx *types.Transaction) error {
 	var first error
 	for i, r := range w.Replicas {
-		if !r.Alive {
+		if !r.Alive || r.Observer {
 			continue
 		}
 		err := r.TxPool.AddExternalTxs(validation.InboundTx, tx)
